@@ -379,4 +379,3 @@ func init() {
 		}
 	}
 }
-
